@@ -44,6 +44,39 @@ pub fn oracle(ctx: &mut Ctx, c: &Case) -> Check {
     ensure!(s == want_s, "c18:summary", "summary {:?} != {:?}", s.as_ref().map(|x| x.chars().take(40).collect::<String>()), want_s.as_ref().map(|x| x.chars().take(40).collect::<String>()));
     ensure!(y == c.year, "c18:year", "year {:?} != {:?}", y, c.year);
     ensure!(p == c.poster, "c18:poster", "poster ({:?} bytes) != encoded ({:?} bytes)", p.as_ref().map(|x| x.len()), c.poster.as_ref().map(|x| x.len()));
+    // the same answers through a reader derived with read_fragment_header (it carries the movie's moov)
+    {
+        let mut fm = c.movie.clone();
+        fm.tracks.truncate(1);
+        for t in fm.tracks.iter_mut() {
+            t.samples.clear();
+            t.chunks.clear();
+            t.stsc_breaks.clear();
+            t.stts_breaks.clear();
+            t.ctts_breaks.clear();
+        }
+        fm.frags = vec![crate::refmp4::movie::Fragment {
+            seq: 1,
+            mdat_first: false,
+            trafs: vec![crate::refmp4::movie::Traf { track: 0, base: crate::refmp4::movie::BaseMode::DefaultBaseIsMoof, tfdt: Some((0, 0)), tfhd_dur: Some(1), tfhd_size: None, tfhd_flags: None, tfhd_sdi: None, trun_dur: false, trun_cts: false, trun_flags: false, trun_first_flags: None, trun_version: 0, lead: 0, samples: vec![crate::refmp4::movie::Sample { size: 2, dur: 1, cts: 0, sync: true }], has_trun: true, trun_size: true }],
+        }];
+        let fb = build(&fm);
+        let init = open(&fb.bytes[..fb.init_len])?;
+        let seg = fb.segment.clone();
+        let n = seg.len() as u64;
+        match guarded("read_fragment_header", || init.read_fragment_header(std::io::Cursor::new(seg), n))? {
+            Ok(fr) => {
+                let md = fr.metadata();
+                let t2 = guarded("metadata.title", || md.title().map(|c| c.into_owned()))?;
+                let y2 = guarded("metadata.year", || md.year())?;
+                let p2 = guarded("metadata.poster", || md.poster().map(|b| b.to_vec()))?;
+                let s2 = guarded("metadata.summary", || md.summary().map(|c| c.into_owned()))?;
+                ensure!((t2, y2, p2, s2) == (t.clone(), y, p.clone(), s.clone()), "c18:fragment-reader-metadata", "the reader derived with read_fragment_header reports different metadata than the reader of the file itself");
+                ctx.count("also-through-fragment-reader");
+            }
+            Err(e) => ensure!(false, "c18:fragment-open-failed", "read_fragment_header failed on a valid segment: {}", e),
+        }
+    }
     // metamorphic: strip everything unknown
     let mut stripped = c.movie.clone();
     let mut had_unknown = false;
